@@ -176,11 +176,13 @@ def ob_mimo(switched, profile, ants="1x2", form="2d"):
 
 
 SELECTIONS = {"all": None, "list": [0, 2, 3], "array": "np[3,1]", "slice_step_divides": slice(0, 4, 2), "slice_step_not_dividing": slice(0, 4, 3),
-              "slice_open": slice(1, None, None)}
+              "slice_open": slice(1, None, None),
+              # fft_size 8 (DFT contract with h = sqrt(1/2))
+              "fft8_all": None, "fft8_slice_step3": slice(1, 8, 3), "fft8_array": "np[7,2,5]"}
 
 
 @obligation("freq/per_block_dft_of_reported_response", params=[{"sel": s} for s in SELECTIONS], timeout=200,
-            desc="corrupt_data_in_freq_domain(x, fft_size=4, selection) for every selection kind: block size == number of selected "
+            desc="corrupt_data_in_freq_domain(x, fft_size=4 (and 8), selection) for every selection kind: block size == number of selected "
                  "carriers, block b of the output == DFT_4(dense response of block b)[selection] * x[block b]; generator advanced by one "
                  "sample + fft_size-1 skipped per block; reported response == concatenation of the block responses; wrong input length "
                  "-> ValueError")
@@ -188,12 +190,12 @@ def ob_freq(sel):
     def body(c, it):
         from pyphysim.channels import fading
         selection = SELECTIONS[sel]
-        if selection == "np[3,1]":
-            selection = np.array([3, 1])
+        if isinstance(selection, str):
+            selection = np.array([3, 1]) if selection == "np[3,1]" else np.array([7, 2, 5])
         prof = _profile([0, 2])
         gen = SymFading(c)
         ch = it.call(fading.TdlChannel, [gen, prof])
-        fft = 4
+        fft = 8 if sel.startswith("fft8") else 4
         idx = list(range(fft)) if selection is None else (list(range(*selection.indices(fft))) if isinstance(selection, slice) else list(selection))
         B = len(idx)
         nblocks = 2
@@ -394,7 +396,9 @@ def ob_native():
             for rnd in range(2):
                 nin, nout = ((nr, nt) if ch.switched_direction else (nt, nr)) if kind == "mimo" else (1, 1)
                 x = rr.randn(nin, N) + 1j * rr.randn(nin, N) if kind == "mimo" else rr.randn(N) + 1j * rr.randn(N)
-                out = ch.corrupt_data(x.copy())
+                # a single input stream may be handed over as a 1-D array
+                arg = x[0].copy() if (kind == "mimo" and nin == 1 and rnd == 1) else x.copy()
+                out = ch.corrupt_data(arg)
                 ir = ch.get_last_impulse_response()
                 d, t = ir.tap_indexes_sparse, ir.tap_values_sparse
                 if list(d) != sorted(set(d.tolist())):
